@@ -11,6 +11,7 @@ CONSTANTS
   MaxCells = 5
   MaxMerges = 2
   MaxSheets = 2
+  KindSeq <- KindsAll
   Rots <- RotAll
   Layouts <- LayAll
 CONSTRAINT Emit
